@@ -956,7 +956,9 @@ def parse_for(fields, text, index, *cwd):
     if flags & 2:
         sep += ','
     if fields['mode']['html']:
-        s = html.unescape(s)
+        var, s, sep = html.unescape(var), html.unescape(s), html.unescape(sep)
+        if fsep is not None:
+            fsep = html.unescape(fsep)
     elements = []
     for n in range(start, stop + step // abs(step), step):
         if flags & 4:
@@ -1036,7 +1038,8 @@ def parse_foreach(writer, text, index, *cwd):
     if fsep is None:
         fsep = sep
     if entry_holder.fields['mode']['html']:
-        s = html.unescape(s)
+        var, s, sep, fsep = html.unescape(var), html.unescape(s), html.unescape(sep), html.unescape(fsep)
+        values = [html.unescape(v) for v in values]
     if len(values) == 1:
         retval = s.replace(var, values[0])
     else:
